@@ -156,6 +156,7 @@ def run_core(ctx, opts=("d",), force=False):
                         mlines.append("grammar %s/%s %d %s" % (gid, o, ptx, sexp))
                         mlines.append("gen %s/%s %d" % (gid, o, 1 if B.OPTSETS[o]["inline"] else 0))
                         mlines.append("emit %s/%s %d %d %s" % (gid, o, 0 if B.OPTSETS[o]["noast"] else 1, 1 if B.OPTSETS[o]["inline"] else 0, P.undef_bits(nodes)))
+                        mlines.append("semit %s/%s %d %d %s" % (gid, o, 0 if B.OPTSETS[o]["noast"] else 1, 1 if B.OPTSETS[o]["inline"] else 0, P.undef_bits(nodes)))
                         if o == "d":
                             mlines.append("opt %s/d" % gid)
                             try:
@@ -233,6 +234,9 @@ def run_core(ctx, opts=("d",), force=False):
             if "model" in oi:
                 oi["gen"] = mres.get(("gen", "%s/%s" % (gid, o)))
                 oi["emit"] = mres.get(("emit", "%s/%s/%d%d" % (gid, o, 0 if B.OPTSETS[o]["noast"] else 1, 1 if B.OPTSETS[o]["inline"] else 0)))
+                sm = mres.get(("semit", "%s/%s/%d%d" % (gid, o, 0 if B.OPTSETS[o]["noast"] else 1, 1 if B.OPTSETS[o]["inline"] else 0)))
+                if sm is not None and sm.startswith("deep="):
+                    oi["deep"], oi["semit"] = sm[5] == "1", sm[7:]
                 if o == "d":
                     oi["opt"] = mres.get(("opt", "%s/d" % gid))
                     oi["link"] = mres.get(("link", "%s/d" % gid))
@@ -243,6 +247,8 @@ def run_core(ctx, opts=("d",), force=False):
                     src = open(os.path.join(bt.dir, "pkgs", bt.items[(gid, o)]["pkg"], "parser.go"), encoding="utf-8", errors="replace").read()
                     sk = emitskel.skeletons(src)
                     oi["skel"] = ";".join(sk) if sk is not None else None
+                    sts = emitskel.statements(src)
+                    oi["stmts"] = ";".join(sts) if sts is not None else None
                     calls = {}
                     for m_ in re.finditer(r"^\s*(if !)?_rules\[rule(\w+)\]\(\)( \{)?\s*$", src, re.M):
                         calls.setdefault(m_.group(2), set()).add("if" if m_.group(1) else "bare")
